@@ -15,6 +15,7 @@ ALPHA = ['\'', '"', '\\', '\n', '\t', '#', '{', '}', '%', '~', '?', '*', 'a', 'B
 CANARY = 'E2P_CANARY'
 SET = "setattr (__import__ ('sys'),'%s',1)" % CANARY          # the space before ( passes the safety regex
 PAYLOADS = [
+    '{%s}' % SET, '{self.__class__.__name__}', '{{%s}}' % SET, '{0}{self}', "{__import__ ('sys').modules}",
     "'+%s+'" % SET, '"+%s+"' % SET, "\\'+%s+\\'" % SET, "\\\\'+%s+'" % SET, "'''+%s+'''" % SET, '\n%s\n#' % SET, "')\n        %s\n        ('" % SET,
     '{%s}' % SET, "'+str(%s)+'" % SET, "x' if %s else '" % SET, "'%s'" % SET, "\\", "\\'", "'\\", "a'\nb", "'; %s; '" % SET, "__import__ ('os').system ('true')",
     "' + self.%s + '" % CANARY, "{titles}", "{0}", "%(x)s", "' # ", '" # ', "\\x27+%s+\\x27" % SET, "\\N{APOSTROPHE}+%s" % SET,
@@ -87,7 +88,10 @@ def run(tier, seed):
             # a text starting with '=' is a formula, not a constant: keep the planted constant a text
             const = s if not s.startswith('=') else 'x' + s
             row = [const, '=' + lit, '=A%d&%s' % (i + 1, lit), '=%s&"z"' % lit, '=IF(A%d=%s,1,2)' % (i + 1, lit), '=COUNTIFS(A1:A%d,%s)' % (len(batch), lit),
-                   '=SUMIF(A1:A%d,%s,A1:A%d)' % (len(batch), lit, len(batch)), '=LEFT(%s,3)' % lit, '=SEARCH(%s,A%d)' % (lit, i + 1)]
+                   '=SUMIF(A1:A%d,%s,A1:A%d)' % (len(batch), lit, len(batch)), '=LEFT(%s,3)' % lit, '=SEARCH(%s,A%d)' % (lit, i + 1),
+                   # a criterion assembled with & from the text and a cell / another literal
+                   '=COUNTIFS(A1:A%d,%s&A%d)' % (len(batch), lit, i + 1), '=SUMIF(A1:A%d,%s&"",A1:A%d)' % (len(batch), lit, len(batch)),
+                   '=SUMIFS(A1:A%d,A1:A%d,%s&"z")' % (len(batch), len(batch), lit), '=AVERAGEIFS(A1:A%d,A1:A%d,"<>"&%s)' % (len(batch), len(batch), lit)]
             rows.append(row)
             plan.append((s, const))
         sheets = [('S', rows)]
